@@ -1,6 +1,7 @@
 import GixModel.Lemmas.C36
 import GixModel.Lemmas.C36Multi2
 import GixModel.Lemmas.C36NoPath
+import GixModel.Lemmas.C36Path2
 /-
 C36 — Wildcard matching agrees with git's wildmatch.  PROPERTY THEOREMS ONLY.
 
@@ -111,6 +112,44 @@ theorem no_pathmode_eq (m : Mode) (hnp : m.noMatchSlash = false) (p t : Bytes) (
 -- non-vacuity: `**a***/[x-z]**` without path mode
 example : C36.wildmatch ⟨false, false⟩ [42, 42, 97, 42, 42, 42, 47, 91, 120, 45, 122, 93, 42, 42] [113, 47, 97, 47, 47, 121, 47, 47] = true := by
   decide +kernel
+
+/-- The patterns covered in path mode: no run of two or more stars is a `**/`-style boundary in the
+MIDDLE of the pattern or at its start, i.e. one that begins at the start of the pattern or behind a `/` AND is
+followed by `/` or `\/`. Allowed: single stars anywhere; `**` that is not at such a boundary
+(`a**b`, `a**/b`, `/**b` — git treats them like one `*`); a run at a boundary that ENDS the pattern
+(`x/**`, `**`). `okDSaux prev p` checks this with `prev` = the byte in front of `p`. -/
+def PathModeOk (p : Bytes) : Prop := okDSaux none p = true
+
+/-- T4-path tiers 1–2 (`**` not at a boundary = single star; `/**` and other runs of stars at the end):
+in path mode, for every pattern satisfying `PathModeOk` with fewer than 64 star bytes and every text,
+`wildmatch` gives git's answer. The look-behind byte of git (`prev_p`) and of gitoxide
+(`pattern[p_idx - 1]`) is threaded through the induction. -/
+theorem pathmode_eq (m : Mode) (hpm : m.noMatchSlash = true) (p t : Bytes) (hok : PatOk m p)
+    (hds : PathModeOk p) (hcnt : (p.filter (· == 42)).length < 64) (ht : NoNul t) :
+    C36.wildmatch m p t = Spec.C36.wildmatch (flagsOf m) p t := by
+  unfold C36.wildmatch Spec.C36.wildmatch matchRecursive RECURSION_LIMIT
+  have h := go_rel_p m hpm (p.length + 1) 63 p t hok ht p t 0 0 none (by simp) (by simp) (by simp)
+    (by unfold count42; omega) (fun _ => rfl) hds
+  simp only [Iter.ofSlice]
+  rcases h with h | ⟨h1, h2⟩
+  · rw [h]; cases dowild (flagsOf m) (p.length + 1) none p t <;> rfl
+  · rw [h1]
+    cases hg : go m (p.length + 1) 63 p t ⟨0, p⟩ ⟨0, t⟩ <;> first | rfl | exact absurd hg h2
+
+/-- ABORT_ALL stays suffix-sound for these patterns. -/
+theorem abort_all_sound_path (m : Mode) (n : Nat) (prev : Option UInt8) (p t : Bytes)
+    (hds : okDSaux prev p = true) (hp : NoNul p) (ht : NoNul t)
+    (h : dowild (flagsOf m) n prev p t = .abortAll) (k : Nat) :
+    dowild (flagsOf m) n prev p (t.drop k) ≠ .matched :=
+  dowild_abort_sound_p m n prev p t hds hp ht h k
+
+-- non-vacuity: `a*/x**y/[b-d]/**` is covered, `a/**/b` and `**/b` are not
+example : PathModeOk [97, 42, 47, 120, 42, 42, 121, 47, 91, 98, 45, 100, 93, 47, 42, 42] := by
+  unfold PathModeOk; decide +kernel
+example : ¬ PathModeOk [97, 47, 42, 42, 47, 98] := by unfold PathModeOk; decide +kernel
+example : ¬ PathModeOk [42, 42, 47, 98] := by unfold PathModeOk; decide +kernel
+example : C36.wildmatch ⟨true, false⟩ [97, 42, 47, 120, 42, 42, 121, 47, 91, 98, 45, 100, 93, 47, 42, 42]
+    [97, 113, 47, 120, 122, 121, 47, 99, 47, 117, 47, 118] = true := by decide +kernel
 
 /-- What git's ABORT_ALL means (patterns without `**`): no suffix of the text matches either. This is
 the soundness of the abort code that the proof of `multi_star_eq` rests on. It is FALSE for `**/`
